@@ -31,4 +31,5 @@ def leaf(E, params):
     key = common.outcome_label(o)
     if sc.kind != 'chunk' and o.status == 'C' and o.headers: key += '+hdr'
     rec['witnesses'][key] = 1
+    common.add_validation(rec, E, I, o, params)
     return rec
